@@ -129,7 +129,18 @@ func vhSprint(r interface{}) string {
 	return "panic"
 }
 
-func vEach(f func()) { f() }
+// vEach natively: run the block; an assumption of the block that does not hold for these inputs only skips the block
+func vEach(f func()) {
+	defer func() {
+		if r := recover(); r != nil {
+			if _, ok := r.(vhAbort); ok {
+				return
+			}
+			panic(r)
+		}
+	}()
+	f()
+}
 
 func vDump(name string, x interface{}) {}
 
